@@ -161,6 +161,8 @@ def name_chars(rng):
 
 
 def gen_name(rng):
+    if rng.random() < 0.08:
+        return "n" + chr(rng.choice([0x100, 0x400, 0x3000, 0x4E00, 0xFF00])) + "x" + chr(rng.choice([0x100, 0x200])) + ".t"
     comps = []
     for _ in range(rng.randrange(1, 4)):
         comps.append("".join(chr(name_chars(rng)) for _ in range(rng.randrange(1, 9))).replace("/", "_").replace("\\", "_"))
